@@ -299,15 +299,17 @@ MANIFEST = {
             "registration order when group keys are distinct (C12_order_independent; the built tree itself is then equal up to sibling "
             "order, C12_order_independent_tree), the --list view is the flat listing (C12_list_view), and the run is equal to the intended flat semantics under the "
             "no-name-clash guard (C12_flat_semantics); macro level: nothing for exclusively empty lists, one "
-            "entry per function, exactly the types x consts product for generic ones, external consts 1..20 (C12_expand_*). Groups attach modulo a leading r# "
+            "entry per function, exactly the types x consts product for generic ones, external consts 1..20 (C12_expand_*). F12 / edition 2015: module_path!() spells `mod r#try` (r#async, r#await, r#dyn) without the r#, the group's raw name keeps it; "
+            "the model follows the repaired divan (20bf342) and groups attach modulo a leading r# "
             "(C12_groups_attach_raw, C12_insert_group_by_key; sibling-order independent without raw twins: C12_attach_order_independent; the "
             "exact-match code loses the group of `mod r#try` in edition 2015: C12_exact_match_refuted, F12). Without the "
             "key guard the property fails in divan: C12_name_clash_refuted (finding F8). Correspondence: synthetic registries in random "
             "constructor orders and generated crates using the real attribute macros (registry dump, terse listing, --test log, --list).",
     "note": "The specification evaluated on the implementation is the tree-free 'flat' semantics (every entry at its module path, bench_group "
             "modules contributing name and options); C12_flat_semantics proves that the model's run equals it under the no-name-clash "
-            "guard. Known finding F8 (module and generic fn of the same name share a tree node) is kept "
-            "in a separate stream matched by known_findings.txt. Trusted: rustc's module_path!/line!/column!/type_name, the crate generator.",
+            "guard and no_raw_twins (no two sibling modules differ only by a leading r#). Known finding F8 (module and generic fn of the same name share a tree node) is kept "
+            "in a separate stream matched by known_findings.txt. Trusted: rustc's module_path!/line!/column!/type_name "
+            "(incl. spell_2015: the edition-2015 spelling of raw-identifier modules, taken as is), the crate generator.",
     "technique": "machine-checked proof in Coq (trie invariant, chains by raw path, commuting slot updates) + whole-program differential "
                  "correspondence incl. generated macro crates compiled offline against the checked tree",
 }
